@@ -54,6 +54,9 @@ pub fn run(rep: &mut Report, thorough: bool) {
             seg.reserved = d[1] as u8;
             f.tcp_seg(&seg)
         });
+        if ci == 0 {
+            crate::props::c07::source_mac_stage(cfg, rep, "C06");
+        }
         // the other fixed fields of the segment: urgent pointer x window x checksum value next to
         // every flag set (a SYN|URG whose urgent pointer lies beyond its payload is still a SYN)
         {
